@@ -52,7 +52,7 @@ func openWitness(dir string, create bool) (*witness, error) {
 	return &witness{mem}, nil
 }
 
-func (w *witness) slot(i int) *int32 { return (*int32)(unsafe.Pointer(&w.mem[4*i])) }
+func (w *witness) slot(i int) *int32    { return (*int32)(unsafe.Pointer(&w.mem[4*i])) }
 func (w *witness) writers(p int) *int32 { return w.slot(2 * p) }
 func (w *witness) readers(p int) *int32 { return w.slot(2*p + 1) }
 
